@@ -167,7 +167,7 @@ def _task(task):
         else:
             runs.append(('default', tabx.execute(name, arg, keep_tab=True, extra_opts=extra)))
             out['distinct_hist'] += 1
-        if (idx % 8 == 3 if tier == 'quick' else idx % 2 == 1):
+        if (idx % 8 == 3 if tier == 'quick' else idx % 4 == 1):
             for o in ('nogroup', 'norank', 'neither'):
                 runs.append((o, tabx.execute(name, arg, optname=o, keep_tab=True, extra_opts=extra)))
         reported = False
